@@ -181,17 +181,6 @@ def _pweights(P):
     raise Unsupported('product weighting %r' % w)
 
 
-_RP_VARIANT = []
-
-
-def realpart_variant():
-    """variant switch of finding realpart-complex-adjoint-domain, measured on its own replay input"""
-    if not _RP_VARIANT:
-        import odl
-        _RP_VARIANT.append(bool(odl.RealPart(odl.cn(1)).adjoint.domain == odl.rn(1)))
-    return _RP_VARIANT[0]
-
-
 def encode(op, mode):
     """Coq term of type oexpr T for an ODL operator object (fail closed)."""
     import odl
@@ -247,14 +236,14 @@ def encode(op, mode):
         re = t is D.RealPart
         if op.domain.is_real:
             return '(Leaf (%s %s))' % ('LRealR' if re else 'LImagR', W(op.domain))
-        return '(Leaf (%s %s %s))' % ('LRealC' if re else 'LImagC', W(op.range), C.b(realpart_variant()))
+        return '(Leaf (%s %s))' % ('LRealC' if re else 'LImagC', W(op.range))
     if t is D.ComplexEmbedding:
         if mode == 'C':
             raise Unsupported('ComplexEmbedding in complex mode')
         s = complex(op.scalar)
         rw = vec(gram(op.domain.real_space, 'Q'), 'Q')
         if op.domain.is_real:
-            return '(Leaf (LEmbedR %s %s %s %s))' % (rw, C.q(s.real), C.q(s.imag), C.b(realpart_variant()))
+            return '(Leaf (LEmbedR %s %s %s))' % (rw, C.q(s.real), C.q(s.imag))
         return '(Leaf (LEmbedC %s %s %s))' % (rw, C.q(s.real), C.q(s.imag))
     if t is TO.MatrixOperator:
         import scipy.sparse
@@ -362,7 +351,10 @@ def verdict(op, adj=None, tol=1e-9):
     """The property on the real objects over full bases.  Returns (holds, spaces_ok, maxdefect, witness)."""
     adj = op.adjoint if adj is None else adj
     spaces_ok = (adj.domain == op.range and adj.range == op.domain)
-    mixed = _is_complex(op.domain) != _is_complex(op.range)
+    # real part whenever a real<->complex operator occurs anywhere in the expression: such an operator is
+    # only real-linear (also when composed back into a complex->complex map), and the real-part pairing is
+    # the only sense in which it has an adjoint (C = R^2)
+    mixed = (_is_complex(op.domain) != _is_complex(op.range)) or mode_of(op) == 'R2'
     worst, wit = 0.0, None
     for i, x in enumerate(basis(op.domain, 'R2')):
         ax = op(x)
@@ -706,13 +698,7 @@ def correspondence(rng, tier):
     global LAST_STATS
     stats = {}
     for cls, kind, op in builtin_ops(rng, tier):
-        try:
-            mode, coq, info = make_case(rng, op)
-        except Unsupported as e:
-            # only the recorded no-adjoint cases may be skipped (the probes report them)
-            if cls == 'MultiplyOperator-field' and kind.startswith('complex') and 'adjoint raised' in str(e):
-                continue
-            raise
+        mode, coq, info = make_case(rng, op)
         cs = csC if mode == 'C' else csQ
         desc = {'class': cls, 'space': kind, 'mode': mode, 'holds': info['holds'], 'op': repr(op)[:200]}
         cs.add(coq, desc, (cls, kind, C.digest(coq)) if info['nontrivial'] else None)
@@ -747,12 +733,7 @@ def correspondence(rng, tier):
             lambda: odl.BroadcastOperator(parts[0], parts[1]),
             lambda: odl.ReductionOperator(E, b * E),
         ])()
-        try:
-            mode, coq, info = make_case(rng, op)
-        except Unsupported:
-            # compositions with RealPart/ImagPart of a complex space on the right have no adjoint
-            # (finding realpart-complex-adjoint-domain; reported by the probes)
-            continue
+        mode, coq, info = make_case(rng, op)
         csT.add(coq, {'tree': repr(op)[:300], 'mode': mode, 'holds': info['holds']},
                 ('mixed', C.digest(coq)) if info['nontrivial'] else None)
     LAST_STATS = stats
@@ -806,8 +787,6 @@ def finding_keys(op):
             wd, wr = gram(o.domain, 'Q'), gram(o.range, 'Q')
             if not (_const(wd) and _const(wr)):
                 keys.add('resizing-adjoint-nodes-on-bdry')
-        elif t in (D.RealPart, D.ImagPart) and not o.domain.is_real:
-            keys.add('realpart-complex-adjoint-domain')
         for a in ('left', 'right', 'operator', 'functional'):
             sub = getattr(o, a, None)
             if sub is not None and hasattr(sub, 'domain'):
@@ -937,36 +916,22 @@ def probes(rng, tier):
         expected = sorted(finding_keys(op))
         if ok:
             key = 'adjoint-%s-%s' % (cls, kind)
-        elif clause == 'adjoint-raises' and 'realpart-complex-adjoint-domain' in expected:
-            key = 'realpart-complex-adjoint-domain'
-        elif clause == 'spaces' and 'realpart-complex-adjoint-domain' in expected:
-            key = 'realpart-complex-adjoint-domain'
         elif clause == 'identity' and expected:
             key = expected[0]
-        elif clause == 'adjoint-raises' and cls == 'MultiplyOperator-field' and kind.startswith('complex'):
-            key = 'innerproduct-complex-double-adjoint-raises'
-        elif clause == 'double-adjoint-raises' and _is_complex(op.domain) and \
-                ('InnerProductOperator' in repr(op) or 'FunctionalLeftVectorMult' in repr(op)):
-            key = 'innerproduct-complex-double-adjoint-raises'
         else:
             key = 'adjoint-%s-%s-%s' % (cls, kind, clause)
         rp = ("import sys\nsys.path.insert(0, %r)\nfrom harness import c05\nop = c05.nth_probe_op(%d, %r, %d)\n"
               "print(repr(op)[:400])\nok, clause, observed = c05.check_property(op)\n"
               "expected = 'adjoint identity, swapped spaces, A.adjoint.adjoint = A'\n" % (C.VERIF, seed, tier, k))
         out.append(C.Probe(ok, key, '%s on %s: %s' % (cls, kind, repr(op)[:160]), rp, {'clause': clause, 'detail': detail}))
-    # clauses about operators that have NO adjoint although linear (recorded separately)
-    c3 = odl.cn(2)
-    v = c3.element([1 + 2j, 3j])
-    A = odl.MultiplyOperator(v, domain=odl.ComplexNumbers())
-    try:
-        A.adjoint
-        ok = check_property(A)[0]
-    except AttributeError:
-        ok = False
-    out.append(C.Probe(ok, 'innerproduct-complex-double-adjoint-raises',
-                       'MultiplyOperator(complex vector, domain=ComplexNumbers()).adjoint',
-                       "import odl\nA=odl.MultiplyOperator(odl.cn(2).element([1+2j,3j]), domain=odl.ComplexNumbers())\n"
-                       "try:\n    A.adjoint; ok=True\nexcept AttributeError as e:\n    ok=False; observed=repr(e)\n"))
+    # fixed finding innerproduct-complex-double-adjoint-raises (/repo a344936): must hold now
+    A = odl.MultiplyOperator(odl.cn(2).element([1 + 2j, 3j]), domain=odl.ComplexNumbers())
+    ok, clause, detail = check_property(A)
+    out.append(C.Probe(ok, 'adjoint-MultiplyOperator-field-complex',
+                       'MultiplyOperator(complex vector, domain=ComplexNumbers())',
+                       "import sys\nsys.path.insert(0, %r)\nfrom harness import c05\nimport odl\n"
+                       "A=odl.MultiplyOperator(odl.cn(2).element([1+2j,3j]), domain=odl.ComplexNumbers())\n"
+                       "ok, clause, observed = c05.check_property(A)\n" % C.VERIF, {'clause': clause, 'detail': detail}))
     return out
 
 
